@@ -13,6 +13,7 @@ import PgProofs.Notify
 import PgProofs.NotifySpec
 import PgProofs.NotifyOrder
 import PgProofs.NotifyEdit
+import PgProofs.NotifyBatch
 namespace Pg.C09
 open T
 open Pg.C08 (Atom Key NotifyKind)
@@ -179,6 +180,36 @@ theorem C09_truthful_write (root r' : T) (parent : Path) (k : Key) (v : Option T
   obtain ⟨k', hp, ho, hn⟩ := writeAt_truthful parent root [] k v r' u hk hl hw
   simp only [List.nil_append] at hp
   exact ⟨k', hp, by rw [hp]; exact ho, by rw [hp]; exact hn⟩
+
+/-- A whole batch (`rebind` with any number of pairs, `extend`, `update`: the write loop `writeAll`),
+on a well-formed tree (distinct keys, lists indexed `0..n-1`) with well-formed values: when the
+reported locations are pairwise unrelated (none at or below another), every recorded `old` is the
+value at that location *before the call* and every `new` the value there *after the call* … -/
+theorem C09_truthful_batch (root r' : T) (recv : Path) (pairs : List (Path × T)) (ups : List (Update × Path))
+    (hw : WFK root) (hv : ∀ pv ∈ pairs, WFK pv.2) (h : writeAll root recv pairs [] = some (r', ups))
+    (hun : (ups.map (·.1.path)).Pairwise Unrelated) :
+    ∀ x ∈ ups, getAt root x.1.path = x.1.old ∧ getAt r' x.1.path = x.1.new :=
+  (writeAll_truthful recv pairs root r' ups hw hv h).2.2 hun
+
+/-- … and nothing else changes: every location unrelated to all reported ones holds after the
+call what it held before (so the reported locations are *exactly* the changed ones). -/
+theorem C09_batch_frame (root r' : T) (recv : Path) (pairs : List (Path × T)) (ups : List (Update × Path))
+    (hw : WFK root) (hv : ∀ pv ∈ pairs, WFK pv.2) (h : writeAll root recv pairs [] = some (r', ups))
+    (L : Path) (hL : ∀ x ∈ ups, Unrelated x.1.path L) : getAt r' L = getAt root L :=
+  (writeAll_truthful recv pairs root r' ups hw hv h).2.1 L hL
+
+/-- Why the locations must be unrelated: in the dependent batch `rebind({'n': {'k': 0}, 'n.k': 1})`
+the second update records `old = 0`, the value the *first pair of the same call* put there; before
+the call there was nothing at `n.k`. (The real code records the same; the oracle only demands
+truthful values for batches of unrelated locations.) -/
+theorem C09_truthful_needs_unrelated :
+    ∃ (root r' : T) (pairs : List (Path × T)) (ups : List (Update × Path)),
+      writeAll root [] pairs [] = some (r', ups) ∧ ∃ x ∈ ups, getAt root x.1.path ≠ x.1.old := by
+  refine ⟨.node ⟨1, false, none⟩ .dict [],
+    _, [([Key.s "n"], .node ⟨0, false, none⟩ .dict [(Key.s "k", .leaf (.int 0))]), ([Key.s "n", Key.s "k"], .leaf (.int 1))],
+    _, rfl, ?_⟩
+  refine ⟨_, List.mem_cons_of_mem _ (List.mem_singleton.2 rfl), ?_⟩
+  simp [getAt, child, lookup]
 
 /-- The edits of the position-shifting list calls: every reported `old` is the item that was at
 that position before the call (deletions: the removed item at the position it had; replacements: the
@@ -395,6 +426,9 @@ theorem C09_stale_without_invalidation :
   simp [Fresh, FreshItems, deriveItems, setKv]
 
 /-! Non-vacuity -/
+example : WFK exRoot := by
+  simp [WFK, exRoot, KeysNodup, KeysNodupItems, ListIndexed, ListIndexedItems]
+example : Unrelated [Key.s "a", Key.i 0] [Key.s "b"] := by simp [Unrelated]
 example : Fresh exRoot := by simp [exRoot, Fresh, FreshItems, deriveItems]
 example : WF exRoot := by simp [WF, exRoot, KeysNodup, KeysNodupItems, allSubs, allSubsItems]
 example : (step exRoot [] true (.setKey (Key.s "k") (.leaf (.int 2)))).events.length = 1 := by
